@@ -100,6 +100,28 @@ macro_rules! harnesses {
             $( (stringify!($name), $body as fn(&mut $crate::Nd)) ),*
         ];
     };
+    (idl $( $name:ident : $unwind:literal => $body:path ),* $(,)?) => {
+        #[cfg(kani)]
+        pub mod k {
+        $(
+            #[kani::proof]
+            #[kani::unwind($unwind)]
+            #[kani::stub(core::fmt::write, $crate::stubs::fmt_write)]
+            #[kani::stub(alloc::fmt::format, $crate::stubs::fmt_format)]
+            #[kani::stub(tracing_core::metadata::LevelFilter::current, $crate::stubs::level_off)]
+            #[kani::stub(serde_json::error::parse_line_col, $crate::stubs::parse_line_col)]
+            #[kani::stub(core::str::from_utf8, $crate::stubs::from_utf8_ascii)]
+            pub fn $name() {
+                let mut nd = $crate::Nd::new();
+                $body(&mut nd);
+            }
+        )*
+        }
+        #[cfg(not(kani))]
+        pub const LIST: &[(&str, fn(&mut $crate::Nd))] = &[
+            $( (stringify!($name), $body as fn(&mut $crate::Nd)) ),*
+        ];
+    };
     (nofmt $( $name:ident : $unwind:literal => $body:path ),* $(,)?) => {
         #[cfg(kani)]
         pub mod k {
